@@ -1,7 +1,7 @@
 (* Case formats of the correspondence check and the model-side checker.
    Every stream of the Go harness produces cases of this type; check_case returns the list of
    disagreements (empty = the implementation behaved like the model on this case). *)
-From Clover Require Export Ops RunC10 Unmarshal.
+From Clover Require Export Ops RunC10 Unmarshal Msgpack MsgpackSpec.
 Open Scope Z_scope.
 
 Inductive hcase : Type :=
@@ -20,7 +20,12 @@ Inductive hcase : Type :=
 | HCursor (keys : list bytes) (forward : bool) (target : bytes) (obs : T)
     (* store-level cursor contract: keys written (with empty values), Seek(target), then iterate *)
 | HDocSet (d : obj) (name : bytes) (g : goval) (probe : bytes) (obs : T) (* Set then Get/Has of probe *)
-| HUnm (t : gotype) (d : obj) (obs : T).
+| HUnm (t : gotype) (d : obj) (obs : T)
+| HMp (d : obj) (raw : option bytes) (back : T).
+    (* byte level of a stored document: d = the normalised document handed to Insert, raw = the bytes found under its
+       key in the real store (None: Insert failed), back = the document FindById returned.  The model decoder applied to
+       the real bytes must give what Go read back, the model encoder applied to d (in the map order and with the Location flags read off the bytes) must give the
+       real bytes again, and inside the codec domain that document is d. *)
     (* Document.Unmarshal of document d into a zeroed target of Go type t; observed: [3] on error, otherwise
        Normalize of what the target holds. Compared only where the model determines the outcome. *)
 
@@ -93,6 +98,28 @@ Definition check_case (c : hcase) : list T :=
       | UOk g => expect (T_of_nres (normalize g)) obs
       | UErr => expect (TL [TZ 3]) obs
       | UUndet => []
+      end
+  | HMp d raw back =>
+      match raw with
+      | None =>                                  (* Insert failed: the model encoder must refuse the document too *)
+          match bw_encode (bw_of_value (VObj d)) with None => [] | Some _ => [TL [TZ 0]] end
+      | Some b =>
+          match mp_unmarshal b with
+          | None => [TL [TZ 1]]
+          | Some t =>
+              (match bw_encode (bw_align (VObj d) t) with      (* the encoder, on d in Go's map order / Location flags *)
+               | Some e => if beqb e b then [] else [TL [TZ 2; TB e]]
+               | None => [TL [TZ 2]]
+               end) ++
+              (if mp_dom (VObj d) then                         (* inside the domain the decoded tree re-encodes to b *)
+                 match bw_encode t with
+                 | Some e => if beqb e b then [] else [TL [TZ 3; TB e]]
+                 | None => [TL [TZ 3]]
+                 end
+               else []) ++
+              expect (T_of_value (bw_value t)) back ++
+              (if mp_dom (VObj d) then expect (T_of_value (bw_value t)) (T_of_value (VObj d)) else [])
+          end
       end
   end.
 
